@@ -32,8 +32,9 @@ Inductive ser :=
 | SList (items : sfields)                 (* keys unused *)
 with sfields := SNil | SCons (k : string) (s : ser) (r : sfields).
 
-Record fdecl := mkf { f_name : string; f_ty : fty; f_default : option value (* None = required *) }.
-(* one class: name, direct bases (inside the hierarchy), ALL its init fields (inherited ones included, dataclass order),
+Record fdecl := mkf { f_name : string; f_ty : fty; f_default : option value (* None = required *);
+                      f_init : bool (* false = field(init=False): set with setattr after construction *) }.
+(* one class: name, direct bases (inside the hierarchy), ALL its fields (inherited ones included, dataclass order),
    and the decode_into_subclasses=... keyword of the class statement (None = not given) *)
 Record cdecl := mkc { c_name : string; c_bases : list string; c_fields : list fdecl; c_kw : option bool }.
 (* a hierarchy = the classes in REGISTRATION (definition) order *)
@@ -46,6 +47,10 @@ Definition find_class (h : hier) (n : string) : option cdecl := find (fun c => S
 Definition field_names (c : cdecl) : list string := map f_name (c_fields c).
 Definition find_field (c : cdecl) (k : string) : option fdecl := find (fun f => String.eqb (f_name f) k) (c_fields c).
 Definition ftype_of (c : cdecl) (k : string) : option fty := option_map f_ty (find_field c k).
+(* get_init_fields *)
+Definition init_fields (c : cdecl) : list fdecl := filter f_init (c_fields c).
+Definition init_names (c : cdecl) : list string := map f_name (init_fields c).
+Definition is_init (c : cdecl) (k : string) : bool := match find_field c k with Some f => f_init f | None => false end.
 
 (* strict ancestors, accumulated in registration order (a base is always defined before its subclasses) *)
 Definition anc_step (tbl : list (string * list string)) (c : cdecl) : list (string * list string) :=
@@ -137,7 +142,8 @@ Fixpoint collect (fs : list fdecl) (dec : list (string * res value)) : res (list
               end
   end.
 
-(* cls(..init_args): a missing required field is a TypeError, re-raised as RuntimeError *)
+(* cls(..init_args) then setattr for the init=False fields that were in the dict (the others keep their defaults):
+   a missing required field is a TypeError, re-raised as RuntimeError *)
 Fixpoint fill (fs : list fdecl) (present : list (string * value)) : res vfields :=
   match fs with
   | [] => Ok VNil
@@ -171,7 +177,7 @@ Section WithFacts.
   Definition locate (t : string) : option cdecl := find (fun c => String.eqb (qual (c_name c)) t) h.
 
   Definition key_of (c : cdecl) : nat :=
-    match skey with KInitCount => List.length (c_fields c) | KNegInitCount => 1000 - List.length (c_fields c) end.
+    match skey with KInitCount => List.length (init_fields c) | KNegInitCount => 1000 - List.length (init_fields c) end.
   Definition cmp_holds (child req : list string) : bool :=
     let ge := forallb (fun k => str_in k child) req in
     let le := forallb (fun k => str_in k req) child in
@@ -182,12 +188,14 @@ Section WithFacts.
     flat_map (fun n => if String.eqb n cls then [] else match find_class h n with Some c => [c] | None => [] end) (enum cls).
   Definition choose (cls : string) (req : list string) : option cdecl :=
     let sorted := sort_by key_of (candidates cls) in
-    find (fun c => cmp_holds (field_names c) req) (match pk with PickFirst => sorted | PickLast => rev sorted end).
+    find (fun c => cmp_holds (init_names c) req) (match pk with PickFirst => sorted | PickLast => rev sorted end).
 
   Definition extras_of (c : cdecl) (keys : list string) : list string :=
     filter (fun k => negb (str_in k (field_names c))) keys.
 
-  (* from_dict once `_type_` is out of the way.  dec ft drop = the decoded values of the dict's keys that ft knows. *)
+  (* from_dict once `_type_` is out of the way.  dec ft drop = the decoded values of the dict's keys that ft knows.
+     Every field found in the dict is popped (init or not); what is left are the extra keys.  The search asks for the
+     extra keys plus the INIT fields found (req_init_field_names), among the candidates' INIT fields. *)
   Definition build (dec : (string -> option fty) -> bool -> list (string * res value)) (keys : list string)
              (c : cdecl) (dropo : option bool) : res value :=
     let drop := match dropo with Some b => b | None => drop_default (dis_of (c_name c)) end in
@@ -198,7 +206,7 @@ Section WithFacts.
         | [] => construct c present
         | extra =>
             if drop then construct c present
-            else match choose (c_name c) (extra ++ map fst present)%list with
+            else match choose (c_name c) (extra ++ map fst (filter (fun kv => is_init c (fst kv)) present))%list with
                  | None => Err (Raise "RuntimeError")        (* cls(..init_args) with the unknown keys *)
                  | Some child =>
                      (* return from_dict(child_class, d, drop_extra_fields=False) *)
@@ -285,6 +293,7 @@ Section WithFacts.
                                   end
                       | None => false end) (c_fields a).
   Definition wf_class (c : cdecl) : bool :=
+    forallb (fun f => f_init f || match f_default f with Some _ => true | None => false end) (c_fields c) &&
     str_nodupb (field_names c) && negb (str_in TYPE_KEY (field_names c))
     && negb (str_in (c_name c) (ancestors h (c_name c)))
     && forallb (fun a => match find_class h a with Some A => fields_sub A c | None => false end) (ancestors h (c_name c)).
